@@ -197,7 +197,7 @@ def run_replay(P, prop, o, repo):
     if mod:
         try:
             env = dict(os.environ, PYTHONPATH=f'{repo}:{HERE}', PYTHONHASHSEED='0')
-            cp = subprocess.run([sys.executable, '-m', mod, '--obligation', o['name'], '--repo', repo],
+            cp = subprocess.run([sys.executable, '-m', mod, '--obligation', o['name'], '--repo', repo] + (['--prop', prop] if mod == 'replay.explore' else []),
                                 capture_output=True, text=True, timeout=600, env=env, cwd=HERE)
             out = cp.stdout.strip().splitlines()
             res = json.loads(out[-1]) if out else {}
